@@ -12,7 +12,7 @@ def extra(res, facts, entries, protos):
 def run(tier):
     return _proto.run_rules(
         "C01", LEVEL, RULES,
-        {"C01.R1": 7, "C01.R2": 6, "C01.R3": 6, "C01.R4": 18, "C01.R5": 4, "C01.R6": 2, "C01.R7": 40, "C01.R8": 5, "C01.R10": 4},
+        {"C01.R1": 7, "C01.R2": 6, "C01.R3": 6, "C01.R4": 18, "C01.R5": 4, "C01.R6": 2, "C01.R7": 30, "C01.R8": 5, "C01.R10": 4},
         "sibling agreement between try_encrypt and try_decrypt of the 4 local protocols read off provenance terms: cut points = specification lengths and the producer's layout, "
         "length guard rejects nothing an encryptor can produce, identical key-split derivations modulo the nonce's origin, same cipher function both ways, equal PAE component lists; "
         "plumbing of payload / key / footer / assertion through the 16 generic + 16 prelude wrappers and the setters; builders keep footer and assertion across builds",
